@@ -1048,13 +1048,21 @@ pub(super) fn poll_recv(
         }
         let local = bound_endpoint(st);
         let tcb = st.tcb.as_mut().unwrap();
+        let window_before = advertised_window(recv_cap, tcb.recv_buf.len());
         let n = tcb.recv_buf.len().min(buf.len());
         let drained = tcb.recv_buf.split_to(n);
         buf[..n].copy_from_slice(&drained);
-        // Window-update trigger: if we freed ≥ half the recv cap,
-        // advertise. Crude SWS avoidance; refine alongside real flow
-        // control.
-        let should_update = n >= recv_cap / 2;
+        let window_after = advertised_window(recv_cap, tcb.recv_buf.len());
+        // Window-update trigger: if we freed ≥ half the recv cap in
+        // one read, advertise. Also advertise when a run of smaller
+        // reads lifts the window across that same half-cap mark: the
+        // peer may have been told a zero (or tiny) window, nothing
+        // else would ever tell it about the space freed since, and a
+        // sender facing a closed window sends nothing that could
+        // elicit a fresh ACK. Crude SWS avoidance; refine alongside
+        // real flow control.
+        let mark = (recv_cap / 2).clamp(1, u16::MAX as usize) as u16;
+        let should_update = n >= recv_cap / 2 || (window_before < mark && window_after >= mark);
         (n, should_update, local, peer)
     };
 
